@@ -7,7 +7,7 @@ M = 32768
 def schedules(rng, thorough, tlc_losses):
     S = []
     def add(name, **kw):
-        d = dict(name=name, drops=[], dups=[], delays=[], lossPct=0, lossMs=0, outageAtMs=0, outageMs=0, sizes=[1000, M - 1, M, M + 1, 5, 2 * M + 7, 100000], both=False, boundMs=25000, pauseMs=0, lateClose=False)
+        d = dict(name=name, drops=[], dups=[], delays=[], lossPct=0, lossMs=0, outageAtMs=0, outageMs=0, sizes=[1000, M - 1, M, M + 1, 5, 2 * M + 7, 100000], both=False, boundMs=25000, pauseMs=0, lateClose=False, dupAckEvery=0)
         d.update(kw); S.append(d)
     add("faithful"); add("faithful-both", both=True)
     add("tiny-writes", sizes=[1] * 50 + [0, 3, 0, 7]); add("one-big-write", sizes=[700000])
@@ -38,6 +38,19 @@ def schedules(rng, thorough, tlc_losses):
             add("random-loss-%d%%-%d" % (pct, k), lossPct=pct, lossMs=1500, both=(k % 2 == 1))
     for ms in ([1000, 4000, 8000, 13000, 30000] if thorough else [1000, 3000]):
         add("outage-%dms" % ms, outageAtMs=30, outageMs=ms, sizes=[400000], boundMs=40000)
+    # a tube that has left slow start (one early loss) and is still streaming when the network goes away for a few
+    # seconds - many consecutive retransmission timeouts - and comes back
+    for ms in ([1500, 3000, 6000] if thorough else [3000]):
+        add("warm-outage-%dms" % ms, sizes=[20000] * 70, pauseMs=15, drops=[dict(dir=0, kind="data", no=8, times=1)], outageAtMs=500, outageMs=ms, boundMs=40000)
+        add("warm-outage-%dms-both" % ms, sizes=[20000] * 70, pauseMs=15, both=True, drops=[dict(dir=0, kind="data", no=8, times=1)], outageAtMs=500, outageMs=ms, boundMs=40000)
+    # interactive traffic (small messages, each acknowledged before the next: small congestion window, small RTO),
+    # then the network goes away for seconds while a few more small messages are written - many consecutive
+    # retransmission timeouts on a small window - and comes back
+    for ms in ([2500, 4000, 7000] if thorough else [4000]):
+        add("interactive-outage-%dms" % ms, sizes=[32] * 110, pauseMs=5, outageAtMs=480, outageMs=ms, boundMs=40000)
+    # a long-lived tube with small frames only, on a network that duplicates every third acknowledgement
+    add("chatty-dup-acks", sizes=[20] * 500, pauseMs=2, dupAckEvery=3, boundMs=30000)
+    add("chatty-dup-acks-both", sizes=[20] * 500, pauseMs=2, dupAckEvery=3, both=True, boundMs=30000)
     # loss patterns explored by the design-level model, as first-transmission drops
     for n, h in enumerate(tlc_losses):
         add("tlc-loss-%d" % n, drops=[dict(dir=0 if x["dir"] == "A" else 1, kind=x["kind"], no=x["no"] if x["kind"] != "ack" else x["no"], times=1) for x in h],
